@@ -149,14 +149,27 @@ def get_fn(i, ctxful):
     key = (i, ctxful)
     fn = _FUNCS.get(key)
     if fn is None:
-        if ctxful:
+        if ctxful == 'lookalike':
+            # first parameter is NOT called 'context': must not get the context prepended
+            def fn(contextual_arg, *args, _name=f'k{i}'):
+                return _call(_name, (contextual_arg,) + args)
+        elif ctxful == 'partial':
+            import functools
+
+            def inner(tag, *args, _name=f'p{i}'):
+                return _call(_name, (tag,) + args)
+            fn = functools.partial(inner, 'bound')
+        elif ctxful:
             def fn(context, *args, _name=f'g{i}'):
                 return _call(_name, (context,) + args)
             # keep the signature inspectable: first parameter is named 'context'
         else:
             def fn(*args, _name=f'f{i}'):
                 return _call(_name, args)
-        fn.__name__ = f'g{i}' if ctxful else f'f{i}'
+        try:
+            fn.__name__ = {True: f'g{i}', False: f'f{i}', 'lookalike': f'k{i}'}.get(ctxful, f'p{i}')
+        except AttributeError:
+            pass
         _FUNCS[key] = fn
     return fn
 
@@ -258,7 +271,7 @@ class Mirror:
 # --------------------------------------------------------------------------
 # workload: builder operations on the real builder and on the mirror
 # --------------------------------------------------------------------------
-STATIC_SIMPLE = [1, 2, 7, 0.5, 'a', 'b', None, (1, 2), ('x', 3), True]
+STATIC_SIMPLE = [1, 2, 7, 0.5, 'a', 'b', None, (1, 2), ('x', 3), True, 't1', 't0-x', ()]
 
 
 class Violation(Exception):
@@ -266,6 +279,21 @@ class Violation(Exception):
         super().__init__(detail)
         self.cls = cls
         self.detail = detail
+
+
+def fname_of(sp):
+    if sp.get('caller'):
+        return 'h' + str(sp['fi'])
+    fk = sp.get('fkind', 'ctx' if sp['ctxful'] else 'plain')
+    return {'plain': 'f', 'ctx': 'g', 'lookalike': 'k', 'partial': 'p'}[fk] + str(sp['fi'])
+
+
+def prefix_of(sp):
+    if sp['ctxful']:
+        return ['CTX']
+    if sp.get('fkind') == 'partial':
+        return ["'bound'"]
+    return []
 
 
 class World:
@@ -317,10 +345,16 @@ class World:
                 st = self.gen_static()
                 if sp.get('caller'):
                     st = (sp['static'][0],) + tuple(x for x in st if x != 'results')
+                if sp.get('fkind') == 'lookalike':
+                    st = ('L',) + tuple(st)
                 sp['static'] = st
         else:
-            sp = {'name': f't{t.draw(4, "name")}', 'fi': t.draw(5, 'fn'),
-                  'ctxful': t.draw(4, 'ctxful') == 3, 'static': self.gen_static()}
+            fk = t.weighted([(12, 'plain'), (5, 'ctx'), (1, 'lookalike'), (1, 'partial')], 'fkind')
+            st = self.gen_static()
+            if fk == 'lookalike':
+                st = ('L',) + tuple(st)       # its first (positional) parameter needs a value
+            sp = {'name': ('t0', 't1', 't2', 't3', 't0-x', 'results-x')[t.draw(6, 'name')], 'fi': t.draw(5, 'fn'),
+                  'ctxful': fk == 'ctx', 'fkind': fk, 'static': st}
         Task = _P['pw'].Task
         if like is None and self.allow_sub and not self.in_sub and t.draw(7, 'caller') == 6:
             # a task that calls a small sub-workflow dynamically (distributed branch only)
@@ -348,12 +382,14 @@ class World:
             self.tasks[uid] = Task(sp['name'], get_caller_fn(sp['fi']), *sp['static'])
             return uid
         self.spec[uid] = sp
-        self.tasks[uid] = Task(sp['name'], get_fn(sp['fi'], sp['ctxful']), *sp['static'])
+        fk = sp.get('fkind', 'ctx' if sp['ctxful'] else 'plain')
+        self.tasks[uid] = Task(sp['name'], get_fn(sp['fi'], {'plain': False, 'ctx': True}.get(fk, fk)),
+                               *sp['static'])
         return uid
 
     def describe(self, uid):
         sp = self.spec[uid]
-        fn = ('h' if sp.get('caller') else 'g' if sp['ctxful'] else 'f') + str(sp['fi'])
+        fn = fname_of(sp)
         return f"#{uid}:{sp['name']}={fn}({','.join(enc(s) for s in sp['static'])})"
 
 
@@ -584,6 +620,8 @@ def build(world):
         compare(world, snap, sm_, 'earlier-frozen-workflow-changed')
     wf = pw.Workflow(wb)
     compare(world, wf, m, 'Workflow(builder)')
+    if wf.name != 'wf' or wb.name != 'wf':
+        raise Violation('workflow-name-lost', f'name is {wf.name!r} / {wb.name!r}, built as \'wf\'')
     world.uses_results_string = any('results' in world.spec[u]['static'] for u in m.nodes)
     return wf, m
 
@@ -650,8 +688,8 @@ def reference_eval(world, m, fail_sigs=frozenset()):
                 failed.add(u)
                 continue
             sp = world.spec[u]
-            fname = ('h' if sp.get('caller') else 'g' if sp['ctxful'] else 'f') + str(sp['fi'])
-            argsigs = tuple((['CTX'] if sp['ctxful'] else []) + [enc(s) for s in sp['static']] +
+            fname = fname_of(sp)
+            argsigs = tuple(prefix_of(sp) + [enc(s) for s in sp['static']] +
                             [enc(value[p]) for p in sorted(ps, key=lambda p: pos[p])])
             sig = (fname, argsigs)
             calls[sig] = calls.get(sig, 0) + 1
